@@ -75,6 +75,15 @@ func (x *Exec) emit(st *St, t oblTemplate, extra []*Term, goal *Term) {
 		}
 		x.emit(st, t, extra, goal.Args[0].Subst(m))
 		return
+	case "exists":
+		if len(goal.Wit) == len(goal.Vars) {
+			m := map[string]*Term{}
+			for i, v := range goal.Vars {
+				m[v.Op] = goal.Wit[i]
+			}
+			x.emit(st, t, extra, goal.Args[0].Subst(m))
+			return
+		}
 	case "=":
 		if goal.Args[0].Sort.IsSeq() {
 			goal = SeqEq(goal.Args[0], goal.Args[1])
